@@ -479,13 +479,19 @@ bool IP::matches_response(const uint8_t* ptr, uint32_t total_sz) const {
         const uint8_t* pkt_ptr = ptr + sizeof(ip_header);
         uint32_t pkt_sz = total_sz - sizeof(ip_header);
         // It's an ICMP dest unreachable
-        if (pkt_sz > 4 && pkt_ptr[0] == 3) {
-            pkt_ptr += 4;
-            pkt_sz -= 4;
-            // If our IP header is in the ICMP payload, then it's the same packet.
-            // This keeps in mind checksum and IP identifier, so I guess it's enough.
-            if (pkt_sz >= sizeof(header_) && memcmp(&header_, pkt_ptr, sizeof(ip_header))) {
-                return true;
+        if (pkt_sz > 8 && pkt_ptr[0] == 3) {
+            // Skip the ICMP header (8 bytes): the datagram that caused the error follows
+            pkt_ptr += 8;
+            pkt_sz -= 8;
+            // If our IP header is the one quoted in the ICMP payload, then it's a response 
+            // to this packet. Routers decrement the TTL (and update the checksum), so 
+            // compare the fields that identify the datagram.
+            if (pkt_sz >= sizeof(header_)) {
+                const ip_header* quoted = (const ip_header*)pkt_ptr;
+                if (quoted->id == header_.id && quoted->protocol == header_.protocol &&
+                    quoted->saddr == header_.saddr && quoted->daddr == header_.daddr) {
+                    return true;
+                }
             }
         }
     }
